@@ -42,7 +42,7 @@ type vfC19Env struct {
 }
 
 func vfC19NewEnv(t *testing.T, test string, autoImport bool, mutate func(c *RestTesterConfig)) *vfC19Env {
-	cfg := &RestTesterConfig{SyncFn: vfC19SyncFn, AllowConflicts: true, AutoImport: base.Ptr(autoImport), GuestEnabled: true}
+	cfg := &RestTesterConfig{SyncFn: vfC19SyncFn, AutoImport: base.Ptr(autoImport), GuestEnabled: true}
 	if mutate != nil {
 		mutate(cfg)
 	}
@@ -70,7 +70,8 @@ func (e *vfC19Env) do(method, path, body string, hdr map[string]string) vfC19Res
 	return vfC19Resp{Code: rec.Code, Body: rec.Body.Bytes(), Hdr: rec.Header()}
 }
 
-var vfC19IDSuffix = []string{"", "", "", "x", "A-Z_0", "é", "a b", "q\"q", "日本", "pl+us", "pc%25t", "semi;colon", "_underscore"}
+// document ids are not what this property is about: URL-safe after escaping, no '%' or '+'
+var vfC19IDSuffix = []string{"", "", "", "x", "A-Z_0", "é", "a b", "q\"q", "日本", "semi;colon", "_underscore"}
 
 func (e *vfC19Env) newDocID(t *rapid.T) string {
 	e.n++
@@ -86,6 +87,7 @@ type vfC19Rev struct {
 	Text    string    // the text sent
 	Path    string    // write path name
 	HasExp  bool
+	Deleted bool // a tombstone written by DELETE: comes back as {} plus _deleted:true
 	Feature vfC19Features
 	Escaped bool
 }
@@ -322,9 +324,15 @@ func (c *vfC19Checker) doc(what string, got *vfC19Val, want *vfC19Rev, showExp b
 	} else if showExp && want.HasExp {
 		c.fail("%s: show_exp=true but no _exp in the body although the client set one", what)
 	}
-	for _, k := range []string{"_deleted", "_removed"} {
-		if got.Get(k) != nil {
-			c.fail("%s: live revision returned with %s", what, k)
+	if want.Deleted {
+		if d := got.Get("_deleted"); d == nil || d.Kind != 't' {
+			c.fail("%s: tombstone revision returned without _deleted:true: %s", what, vfC19Short(got))
+		}
+	} else {
+		for _, k := range []string{"_deleted", "_removed"} {
+			if got.Get(k) != nil {
+				c.fail("%s: live revision returned with %s", what, k)
+			}
 		}
 	}
 	stripped := got.Without(vfC19Added)
@@ -557,21 +565,38 @@ func vfC19Inconclusive(rt *rapid.T, rec *kit.Rec) {
 func TestVerif_C19_RestPaths(t *testing.T) {
 	rec := kit.New("C19", "RestPaths")
 	defer rec.Flush()
-	e := vfC19NewEnv(t, "RestPaths", false, nil)
-	defer e.Close()
-	hugeKnown := kit.Known("C19", "update-after-out-of-float-range-literal-500")
+	e0 := vfC19NewEnv(t, "RestPaths", false, nil)
+	defer e0.Close()
+	// conflicting live leaves cannot be written through a 4.x configuration (allow_conflicts is
+	// refused); databases carried over from earlier versions hold them. The second gateway is switched
+	// to the legacy mode the way the repository's own tests do it, to produce such documents.
+	ec := vfC19NewEnv(t, "RestPaths", false, nil)
+	defer ec.Close()
+	ec.rt.GetDatabase().EnableAllowConflicts(ec.rt.TB())
+	knownBlank := kit.Known("C19", vfC19SigBlankObject)
 	rapid.Check(t, func(rt *rapid.T) {
 		defer vfC19Inconclusive(rt, rec)
 		var ops []string
+		shape := rapid.SampledFrom([]string{"single", "single", "update", "conflict", "resurrect"}).Draw(rt, "shape")
+		e := e0
+		if shape == "conflict" {
+			e = ec
+			ops = append(ops, "(gateway in legacy allow_conflicts mode)")
+		}
 		docID := e.newDocID(rt)
 		c := &vfC19Checker{e: e, rt: rt, ops: &ops, docID: docID, paths: map[string]bool{}}
-		shape := rapid.SampledFrom([]string{"single", "single", "update", "conflict"}).Draw(rt, "shape")
 		var classes []string
 		sigParts := []string{shape}
 		nontrivial := false
-		mk := func(label string, last bool) (*vfC19Val, *vfC19Style) {
+		mk := func(path string, last bool) (*vfC19Val, *vfC19Style) {
 			body := vfC19GenBody(rt, vfC19GenCfg{MaxDepth: 6, NoHugeFloat: !last})
-			return body, vfC19GenStyle(rt)
+			st := vfC19GenStyle(rt)
+			if vfC19BlankObjectShape(path, body, st) && knownBlank {
+				// listed finding: a raw-stored body that is an empty object with inner whitespace
+				rec.Excluded(vfC19SigBlankObject)
+				st = &vfC19Style{Compact: true}
+			}
+			return body, st
 		}
 		record := func(res vfC19WriteResult, body *vfC19Val, text, path string, esc, hasExp bool) *vfC19Rev {
 			if res.Code != 201 || res.RevID == "" {
@@ -599,20 +624,17 @@ func TestVerif_C19_RestPaths(t *testing.T) {
 		}
 		kit.Guard(rt, "C19", "RestPaths", func() string { return strings.Join(ops, "; ") }, func() {
 			w1 := rapid.SampledFrom(vfC19WritePaths).Draw(rt, "w1")
-			b1, st1 := mk("b1", shape == "single")
+			b1, st1 := mk(w1, shape == "single")
 			exp1 := drawExp(w1)
-			res, text, esc := e.write(w1, docID, b1, st1, "", "1-"+rapid.SampledFrom([]string{"abc", "0a0a", "zzz"}).Draw(rt, "d1"), exp1, &ops)
+			res, text, esc := e.write(w1, docID, b1, st1, "", "1-"+rapid.SampledFrom([]string{"abc", "0a0a", "fed"}).Draw(rt, "d1"), exp1, &ops)
 			rev1 := record(res, b1, text, w1, esc, exp1 != nil)
 			current, leaves, old := rev1, []*vfC19Rev{rev1}, []*vfC19Rev(nil)
 			switch shape {
 			case "update":
 				w2 := rapid.SampledFrom([]string{"PUT", "bulk", "bulk-noedits", "PUT-noedits", "import"}).Draw(rt, "w2")
-				b2, st2 := mk("b2", true)
-				if hugeKnown {
-					// excluded by construction while the finding is open: nothing to do, b1 has no such literal
-				}
+				b2, st2 := mk(w2, true)
 				exp2 := drawExp(w2)
-				res, text, esc := e.write(w2, docID, b2, st2, rev1.RevID, "2-"+rapid.SampledFrom([]string{"abc", "0a0a", "zzz"}).Draw(rt, "d2"), exp2, &ops)
+				res, text, esc := e.write(w2, docID, b2, st2, rev1.RevID, "2-"+rapid.SampledFrom([]string{"abc", "0a0a", "fed"}).Draw(rt, "d2"), exp2, &ops)
 				rev2 := record(res, b2, text, w2, esc, exp2 != nil)
 				if exp2 == nil && exp1 != nil && w2 != "import" {
 					// an update without _exp clears the expiry
@@ -624,13 +646,13 @@ func TestVerif_C19_RestPaths(t *testing.T) {
 				current, leaves, old = rev2, []*vfC19Rev{rev2}, []*vfC19Rev{rev1}
 			case "conflict":
 				w2 := rapid.SampledFrom([]string{"bulk-noedits", "PUT-noedits"}).Draw(rt, "w2")
-				b2, st2 := mk("b2", true)
+				b2, st2 := mk(w2, true)
 				// a sibling of rev1 (generation 1) or a longer branch from a phantom parent (generation 2)
 				gen := rapid.IntRange(1, 2).Draw(rt, "cgen")
-				forced := fmt.Sprintf("%d-%s", gen, rapid.SampledFrom([]string{"000", "fff", "m"}).Draw(rt, "cd"))
+				forced := fmt.Sprintf("%d-%s", gen, rapid.SampledFrom([]string{"000", "fff", "5"}).Draw(rt, "cd"))
 				parent := ""
 				if gen == 2 {
-					parent = "1-phantom"
+					parent = "1-dead"
 				}
 				if forced == rev1.RevID {
 					forced += "x"
@@ -647,6 +669,26 @@ func TestVerif_C19_RestPaths(t *testing.T) {
 					rev2.HasExp = false
 					rev1.HasExp = false
 				}
+			case "resurrect":
+				// tombstone, then a disconnected live branch (allowed in conflict-free mode): two leaves
+				p := vfC19Path(docID) + "?rev=" + url.QueryEscape(rev1.RevID)
+				ops = append(ops, "DELETE "+p)
+				dr := e.do("DELETE", p, "", nil)
+				dv, err := vfC19Decode(dr.Body)
+				if dr.Code != 200 || err != nil || dv.Get("rev") == nil {
+					c.fail("DELETE of the current revision answered %d %s", dr.Code, vfC19Clip(string(dr.Body)))
+				}
+				tomb := &vfC19Rev{RevID: dv.Get("rev").Str, Body: vfC19Obj(), Text: "(DELETE)", Path: "DELETE", Deleted: true}
+				w2 := rapid.SampledFrom([]string{"bulk-noedits", "PUT-noedits"}).Draw(rt, "w2")
+				b2, st2 := mk(w2, true)
+				forced := fmt.Sprintf("%d-%s", rapid.SampledFrom([]int{1, 3}).Draw(rt, "rgen"), rapid.SampledFrom([]string{"000", "fff", "5"}).Draw(rt, "rd"))
+				if forced == rev1.RevID {
+					forced += "x"
+				}
+				res, text, esc := e.write(w2, docID, b2, st2, "", forced, nil, &ops)
+				rev3 := record(res, b2, text, w2, esc, false)
+				current, leaves, old = rev3, []*vfC19Rev{tomb, rev3}, []*vfC19Rev{rev1}
+				rev1.HasExp = false
 			}
 			classes = append(classes, "shape="+shape)
 			if (shape == "update" || shape == "conflict") && exp1 != nil {
@@ -663,6 +705,32 @@ func TestVerif_C19_RestPaths(t *testing.T) {
 		}
 		rec.Case(strings.Join(sigParts, " | "), nontrivial, classes...)
 	})
+	if knownBlank {
+		vfC19RegressBlankObject(e0)
+	}
+}
+
+// vfC19RegressBlankObject executes the minimal reproduction of the listed finding
+// "inject-into-whitespace-only-object-invalid-json" end to end; while it still reproduces it prints
+// KNOWN-FINDING (never a violation).
+func vfC19RegressBlankObject(e *vfC19Env) {
+	docID := "c19-regress-blank"
+	if err := e.rt.GetSingleDataStore().SetRaw(e.ctx, docID, 0, nil, []byte("{ }")); err != nil {
+		return
+	}
+	if r := e.do("GET", vfC19Path(docID), "", nil); r.Code != 200 {
+		return
+	}
+	r := e.do("GET", "/_all_docs?include_docs=true&keys="+url.QueryEscape(`["`+docID+`"]`), "", nil)
+	v, err := vfC19Decode(r.Body)
+	bad := err != nil || r.Code != 200
+	if !bad {
+		rows := v.Get("rows")
+		bad = rows == nil || len(rows.Vals) != 1 || rows.Vals[0].Get("doc") == nil
+	}
+	if bad {
+		kit.KnownFinding("C19", vfC19SigBlankObject, fmt.Sprintf("external write of `{ }` + import, then GET /_all_docs?include_docs=true&keys=[id] answers %d %s", r.Code, strings.TrimSpace(vfC19Clip(string(r.Body)))))
+	}
 }
 
 func vfC19Min(a, b int) int {
